@@ -268,7 +268,8 @@ pub fn permute(app: &AppSpec) -> AppSpec {
 
 // param values: anything but '/' and the empty string; values that look like statics, end in '.', are longer than a
 // machine word, carry bytes that are special somewhere else ('.', ':', '?' excluded: it ends the path)
-const PARAM_VALUES: [&str; 24] = ["42", "abc", "users", "users2", "a.b", "x-y_z", "%41b", "caf%C3%A9", "0", "u", "%2Fx", "~t", "St.", "Acme-Inc.", "wait..", ".hidden", "v1.2.3", "a.", "12345678", "abcdefghi.", ":id", "a:b", "x.y.z-0123456789abcdef", "."];
+// (wave 14) and values whose first or later characters are not ASCII, sent raw — a path is UTF-8, not ASCII
+const PARAM_VALUES: [&str; 30] = ["太郎", "émile", "日本語", "ñ", "a太", "x\u{7f}é", "42", "abc", "users", "users2", "a.b", "x-y_z", "%41b", "caf%C3%A9", "0", "u", "%2Fx", "~t", "St.", "Acme-Inc.", "wait..", ".hidden", "v1.2.3", "a.", "12345678", "abcdefghi.", ":id", "a:b", "x.y.z-0123456789abcdef", "."];
 
 pub fn gen_requests(table: &appgen::Table, n: usize) -> Vec<Req> {
     let mut out = Vec::new();
